@@ -208,7 +208,7 @@ def replay_c11(payload):
 # ---------------------------------------------------------------------------
 
 SUM_PIPELINES = ["sn", "snb", "lt", "tee", "orl", "orr", "fos:sn", "rep:sn", "fos:rep:sn", "fos:lt",
-                 "rep:tee", "fos:tee", "fos:orl"]
+                 "rep:tee", "fos:tee", "fos:orl", "asn", "fos:asn"]
 
 # (universe, HasBefore, HasAfter, NotFoundToo, MaxErr, Truncate, Replay)
 SUM_MC = {
